@@ -9,8 +9,8 @@
 #include "c10_ossl_peer.h"
 using namespace vf; using namespace mxh; using namespace c10;
 
-enum { D_NONE, D_INT_OK, D_EXPIRED, D_NOTYET, D_WRONGNAME, D_UNKNOWNCA, D_BADSIG, D_INT_NOTCA, D_INT_NOSIGN, D_DEPTH, D_EXPIRED_AND_UNKNOWNCA, D_EXPIRED_LEAF_UNANCHORED_CHAIN, D_N };
-static const char *dname[] = { "none", "valid-intermediate", "expired", "not-yet-valid", "wrong-name", "unknown-ca", "bad-signature", "intermediate-not-ca", "intermediate-without-keyCertSign", "max-verify-depth-exceeded", "expired+unknown-ca", "expired-leaf-in-unanchored-chain" };
+enum { D_NONE, D_INT_OK, D_EXPIRED, D_NOTYET, D_WRONGNAME, D_UNKNOWNCA, D_BADSIG, D_INT_NOTCA, D_INT_NOSIGN, D_DEPTH, D_EXPIRED_AND_UNKNOWNCA, D_EXPIRED_LEAF_UNANCHORED_CHAIN, D_TBS_ALTERED, D_N };
+static const char *dname[] = { "none", "valid-intermediate", "expired", "not-yet-valid", "wrong-name", "unknown-ca", "bad-signature", "intermediate-not-ca", "intermediate-without-keyCertSign", "max-verify-depth-exceeded", "expired+unknown-ca", "expired-leaf-in-unanchored-chain", "tbs-altered-under-genuine-signature" };
 enum { CB_NONE, CB_STRICT, CB_PERMISSIVE, CB_ANON, CB_PICKY_EXPIRED, CB_N };
 static const char *cbname[] = { "no-callback", "strict", "permissive", "anon", "picky(expired-only)" };
 
@@ -39,10 +39,14 @@ static void prop(Tape &t, Ctx &c) {
     int cb = (int) t.below(CB_N); if (!client_verifies && cb == CB_NONE) cb = CB_STRICT;    // a MatrixSSL server only requests a client certificate when a callback is registered
     int defect = (int) t.below(D_N); if (!client_verifies && defect == D_WRONGNAME) defect = D_UNKNOWNCA;
     uint32_t es = t.u16();
+    // RSASSA-PSS signed leaf (RSA key, ca_rsa issuer): only the two defects that exist for it (gen4.sh)
+    bool pss = rsa && t.chance(1, 3); const char *CT = pss ? "pss" : T;
+    if (pss && defect != D_NONE && defect != D_TBS_ALTERED) defect = (defect & 1) ? D_TBS_ALTERED : D_NONE;
     std::string D = verif_dir() + "/props/C04/pki/", P = verif_dir() + "/pki/";
     std::string pc, pk;   // presented credential
     switch (defect) {
-    case D_NONE: pc = D + "good_" + T + ".pem"; pk = D + "good_" + T + ".key"; break;
+    case D_NONE: pc = D + "good_" + CT + ".pem"; pk = D + "good_" + CT + ".key"; break;
+    case D_TBS_ALTERED: pc = D + "tbsaltered_" + CT + ".pem"; pk = D + "tbsaltered_" + CT + ".key"; break;
     case D_INT_OK: case D_DEPTH: pc = D + "chain_ica_" + T + ".pem"; pk = D + "via_ica_" + T + ".key"; break;
     case D_EXPIRED: pc = D + "expired_" + T + ".pem"; pk = D + "expired_" + T + ".key"; break;
     case D_NOTYET: pc = D + "notyet_" + T + ".pem"; pk = D + "notyet_" + T + ".key"; break;
@@ -55,7 +59,7 @@ static void prop(Tape &t, Ctx &c) {
     case D_INT_NOSIGN: pc = D + "chain_ica_nosign_" + T + ".pem"; pk = D + "via_ica_nosign_" + T + ".key"; break;
     }
     std::string ca = P + "ca_" + T + ".pem";
-    std::string desc = fmt("%s %s-verifies callback=%s defect=%s", T, client_verifies ? "client" : "server", cbname[cb], dname[defect]);
+    std::string desc = fmt("%s %s-verifies callback=%s defect=%s", CT, client_verifies ? "client" : "server", cbname[cb], dname[defect]);
     c.sample(desc); if (c.verbose) fprintf(stderr, "case: %s\n", desc.c_str());
     // presenter = in-process OpenSSL endpoint (it sends whatever chain it is given, MatrixSSL refuses to present some defective
     // credentials of its own); verifier = MatrixSSL with the good CA as trust anchor
@@ -110,7 +114,8 @@ static void prop(Tape &t, Ctx &c) {
     for (int vi = 1; vi < 4; vi++) if (outcome[vi] >= 0 && outcome[0] >= 0)
         VF_CHECK(outcome[vi] == outcome[0], "authentication-outcome-differs-between-versions", "%s: %s=%d but %s=%d; %s", dname[defect], ver_name(vers[0]), outcome[0], ver_name(vers[vi]), outcome[vi], desc.c_str());
     c.count(std::string("defect:") + dname[defect]); c.count(std::string("cb:") + cbname[cb]);
-    if (defect_present) c.nontrivial(fmt("%d|%d|%d|%d", rsa, client_verifies, cb, defect));
+    if (pss) c.count("pss-signed-leaf");
+    if (defect_present) c.nontrivial(fmt("%d|%d|%d|%d", rsa + pss, client_verifies, cb, defect));
 }
 VF_TARGET("C04.auth_gate", prop, 64, 120)
 namespace vf { void vf_global_init(int, char **) { mxh::global_open(); c10::ossl_global_init(); } }
